@@ -72,6 +72,9 @@ class World:
                 'fault': fault, 'fault_at': rng.randint(0, max(0, sum(len(c) for c in callers))), 'peerseed': rng.randrange(1 << 20)}
         if rng.random() < 0.3:
             scen['small_send_buffer'] = rng.choice([5, 12, 40])
+        if not small and rng.random() < 0.15:
+            scen['stray_errors'] = True
+            callers[rng.randrange(ncall)][0] = 'unknown'
         if fault in ('none', 'error-replies') and rng.random() < 0.35:
             scen['lazy_connect'] = True
             if rng.random() < 0.3:
@@ -176,6 +179,12 @@ class World:
                         if (fault == 'silence' and nreq > scen['fault_at']) or (fault == 'silence-first' and nreq <= scen['fault_at']):
                             state['silenced'].append((action, ident, payload))
                             continue
+                        if scen.get('stray_errors') and action == 'xyz':
+                            # an error reply that answers nobody (a late answer to a request given up long ago, a duplicate)
+                            # arrives while a request with an unknown action is waiting: it is not that request's answer
+                            sock.peer_send(encode(rng.choice(['error_change', 'error_read', 'error_do']), rng.choice(['m:stranger', 'x:y', 'm:target2']),
+                                                  ['BadValue', 'answer to nobody', {}]))
+                            state['strays_sent'] = state.get('strays_sent', 0) + 1
                         if fault == 'error-replies' and rng.random() < 0.5:
                             reply = encode('error_' + action, ident, ['HardwareError', f'err-{json.dumps(payload)}', {}])
                         elif action == 'change':
@@ -354,6 +363,8 @@ class World:
                 return
         if state.get('streamed'):
             r.count('runs_with_steady_update_traffic')
+        if state.get('strays_sent'):
+            r.count('stray_error_replies_while_an_unknown_action_waits', state['strays_sent'])
         if state.get('pieces_sent'):
             r.count('replies_sent_in_two_pieces', state['pieces_sent'])
             if (scen.get('pieces') or 0) > 1.0:
